@@ -415,9 +415,6 @@ func TestVerif_C46Engine(t *testing.T) {
 			if rerr != nil && rd.faults == 0 && (streamBad == 0 || ignore) {
 				return fmt.Sprintf("error-on-restorable-stream: RestoreShard returned %q before the source failed", rerr)
 			}
-			if rerr == nil && streamBad > 0 && !ignore {
-				return "corruption-not-reported: RestoreShard returned nil for a stream with an undecodable record"
-			}
 			for a, body := range valid {
 				o, err := dst.Get(ctx, a)
 				if err != nil {
@@ -429,6 +426,9 @@ func TestVerif_C46Engine(t *testing.T) {
 				if !bytes.Equal(o.Marshal(), body) {
 					return fmt.Sprintf("bytes-differ|source-failure-at=%s: %s", kind, a)
 				}
+			}
+			if rerr == nil && streamBad > 0 && !ignore {
+				return "corruption-not-reported: RestoreShard returned nil for a stream with an undecodable record"
 			}
 			lst, err := dst.shards[dstIDs[0].String()].List()
 			if err != nil {
